@@ -1,6 +1,96 @@
-import Firefly.Model.Pmm
+import Firefly.Proof.PmmBoot
+/-!
+# C02 — Early-boot allocator: ascending unique frames, never kernel or reserved RAM
+
+Statement (properties.jsonl): before the main allocator exists, each early allocation returns a
+frame that lies wholly inside available RAM, outside the kernel image, and strictly above every
+frame returned earlier; when no such frame remains it reports out-of-memory instead of returning a
+frame. Repeating the same number of allocations from a reset state returns the same frames in the
+same order, so the frames consumed during boot can be recovered exactly at hand-over.
+
+Domain hypotheses (the property's quantifier): the memory map is sorted and non-overlapping
+(`SortedMap`), the kernel image has a page-aligned start and lies inside one available region
+(`KernelPlaced`). Frames and addresses are unbounded naturals; the Go code's `uint64` arithmetic
+agrees with it when `addr + len < 2^64`, which the bootloader guarantees (trusted; the
+correspondence run compares model and code on such maps).
+-/
 namespace Firefly.C02
-open Firefly.Pmm
-theorem placeholder_free_unmanaged (bm : Bitmap) (f : Nat) (h : poolForFrame bm.pools f = none) :
-    free bm f = (bm, .notManaged) := by simp [free, h]
+open Firefly.Pmm Firefly.Gen.Pmm
+
+/-- a frame of a candidate region is wholly inside that (available) region's bytes -/
+theorem frame_wholly_inside (r : Region) (f : Nat) (h1 : regionStart r ≤ f) (h2 : f < regionEndExcl r) :
+    r.addr ≤ f * 4096 ∧ (f + 1) * 4096 ≤ r.addr + r.len := by
+  have e : pageSize = 4096 := by decide
+  simp only [regionStart, regionEndExcl, e] at h1 h2
+  omega
+
+/-- **boot_sound** — one early allocation from any state reached by successful allocations:
+the frame lies wholly inside a region reported available, is not a kernel frame, is strictly above
+the previous frame, and the allocation count goes up by one. -/
+theorem boot_sound (m : List Region) (ksA keA : Nat) (hs : SortedMap m) (hp : KernelPlaced m ksA keA)
+    (b b' : Boot) (f : Nat) (hks : b.kStart = (bootInit ksA keA).kStart)
+    (hke : b.kEnd = (bootInit ksA keA).kEnd) (hb : BootOk b) (h : bootAlloc m b = (b', some f)) :
+    (∃ r ∈ m, r.typ = memAvailable ∧ r.addr ≤ f * 4096 ∧ (f + 1) * 4096 ≤ r.addr + r.len) ∧
+    ¬ (ksA / 4096 ≤ f ∧ f * 4096 < keA) ∧
+    (b.allocCount ≠ 0 → b.last < f) ∧ b'.last = f ∧ b'.allocCount = b.allocCount + 1 ∧ BootOk b' := by
+  have hgeo := geo_of_placed hs hp
+  have ok := bootAlloc_sound (b := b) (by rw [hks, hke]; exact hgeo) (chain_of_sorted hs)
+    (by rw [hks, hke]; exact bootInit_k_le hp.nonempty) hb h
+  obtain ⟨r, hr, hc, h1, h2⟩ := ok.inRegion
+  refine ⟨⟨r, hr, hc.1, frame_wholly_inside r f h1 h2⟩, ?_, ok.above, ok.last, ok.count, ok.ok⟩
+  have nk := ok.notKernel
+  rw [hks, hke] at nk
+  unfold bootInit at nk
+  simp only at nk
+  have : pageSize = 4096 := by decide
+  rw [this] at nk
+  have := hp.nonempty
+  omega
+
+/-- **boot_strictly_ascending** — any number of successful allocations from the reset state
+returns a strictly increasing (hence duplicate-free) list of frames, each wholly inside available
+RAM and outside the kernel image. -/
+theorem boot_strictly_ascending (m : List Region) (ksA keA : Nat) (hs : SortedMap m)
+    (hp : KernelPlaced m ksA keA) (n : Nat) (b' : Boot) (fs : List Nat)
+    (h : bootRun m n (bootInit ksA keA) = some (b', fs)) :
+    fs.length = n ∧ b'.allocCount = n ∧ fs.Pairwise (· < ·) ∧
+    ∀ f ∈ fs, ¬ (ksA / 4096 ≤ f ∧ f * 4096 < keA) ∧
+      ∃ r ∈ m, r.typ = memAvailable ∧ r.addr ≤ f * 4096 ∧ (f + 1) * 4096 ≤ r.addr + r.len := by
+  obtain ⟨h1, h2, _, _, _, h6, h7, _⟩ := bootRun_sound (chain_of_sorted hs) (bootInit_k_le hp.nonempty) n
+    (bootInit ksA keA) rfl rfl (geo_of_placed hs hp) (bootOk_init _ _) h
+  refine ⟨h1, by simpa [bootInit] using h2, h6, ?_⟩
+  intro f hf
+  obtain ⟨_, nk, r, hr, hc, g1, g2⟩ := h7 f hf
+  refine ⟨?_, r, hr, hc.1, frame_wholly_inside r f g1 g2⟩
+  unfold bootInit at nk
+  simp only at nk
+  have : pageSize = 4096 := by decide
+  rw [this] at nk
+  have := hp.nonempty
+  omega
+
+/-- **boot_oom_is_safe** — a failed allocation returns no frame and does not count. -/
+theorem boot_oom_is_safe (m : List Region) (b b' : Boot) (h : bootAlloc m b = (b', none)) :
+    b'.allocCount = b.allocCount ∧ b'.kStart = b.kStart ∧ b'.kEnd = b.kEnd :=
+  bootAlloc_none h
+
+/-- **replay_exact** — resetting the allocator (count 0, cursor 0) after `n` successful
+allocations and allocating `n` times again returns the same frames in the same order. -/
+theorem replay_exact (m : List Region) (ksA keA : Nat) (hs : SortedMap m) (hp : KernelPlaced m ksA keA)
+    (n : Nat) (b' : Boot) (fs : List Nat) (h : bootRun m n (bootInit ksA keA) = some (b', fs)) :
+    bootRun m n { b' with allocCount := 0, last := 0 } = some (b', fs) :=
+  Firefly.Pmm.replay_exact m ksA keA n b' fs (chain_of_sorted hs) hp.nonempty (geo_of_placed hs hp) h
+
+/-! ## Non-vacuity: a concrete unaligned three-region map with the kernel in the trailing partial
+page of its region (the placement that exposed the defect fixed in /repo commit 62f78c7) -/
+
+def exMap : List Region :=
+  [{ addr := 0x1000, len := 0x1800, typ := 1 }, { addr := 0x3000, len := 0x1000, typ := 2 },
+   { addr := 0xa000, len := 0xb000, typ := 1 }]
+
+example : SortedMap exMap := by unfold SortedMap exMap; decide
+example : KernelPlaced exMap 0x2000 0x2800 :=
+  ⟨by decide, by decide, ⟨{ addr := 0x1000, len := 0x1800, typ := 1 }, by simp [exMap], by decide, by decide, by decide⟩⟩
+example : (bootRun exMap 3 (bootInit 0x2000 0x2800)).map (·.2) = some [1, 10, 11] := by decide
+
 end Firefly.C02
